@@ -190,6 +190,9 @@ def topology_strategy(draw, flavour, eqpt):
         if a != b and (min(a, b), max(a, b)) not in [(min(x), max(x)) for x in links]:
             links.append((a, b))
     fiber_types = [f['type_variety'] for f in eqpt['Fiber']]
+    if 'NEGD' in fiber_types and draw(st.booleans()):
+        # a network built mostly from the dispersion-compensating type: accumulated dispersion becomes negative
+        fiber_types = ['NEGD', 'NEGD', 'NEGD', 'SSMF']
     elements, connections = [], []
     roadm_types = ['default'] + [r['type_variety'] for r in eqpt['Roadm'] if 'type_variety' in r]
     degrees = {s: [] for s in sites}        # egress neighbour uid per site (filled below for user-visible ones)
